@@ -3,6 +3,15 @@
 META = {
     "C19": {
         "level": "proof",
+        "level_text": "Deductive proof, for every expression tree of every depth, that the real "
+        "visit_Call returns agg_lower(node) (one-argument len/Count/Sum/Max/Min -> Aggregate fold, "
+        "everything else rebuilt unchanged) and raises nothing; fold step functions proved over the "
+        "integers; fold = len/sum/max0/min0 is a Lean lemma. A bounded contract check on the real "
+        "code (185 expressions x 35 integer data sets) runs alongside as cross-check of the models.",
+        "level_note": "Trusted: the NodeTransformer dispatch/generic_visit model, CPython's parser "
+        "for the four literal lambda strings, the visitor-induction rule, z3, the engine's own VC "
+        "generator; keywords on shortcut calls are outside the stated domain.",
+        "technique": "contract-based deductive verification (self-generated VCs from the real source, z3) + Lean lemma for the folds; bounded contract check as labelled stand-in",
         "p_keys": True,
         "explanation": "Contract-based deductive verification: aggregate_node_transformer.visit_Call, "
         "_generate_count_call and function_call carry sidecar contracts; obligations (safety of every "
@@ -14,4 +23,28 @@ META = {
         "assumptions": ["calls to len/Count/Sum/Max/Min carry no keyword arguments (the property is "
                         "silent about them; stated domain restriction agg_kwfree)"],
     },
+    "C17": {
+        "level": "other",
+        "level_text": "Deductive proof that the real transform_calls.visit_Call returns "
+        "erase_method_form(node) for every tree; idempotence proved as a lemma by structural "
+        "induction over all 64 node classes; the 'no method-form call remains' lemma is proved for "
+        "every class except the Call case (left undecided by the solver, reported as such) and is "
+        "therefore only checked bounded; semantic equality checked bounded on ~900 mixed-form "
+        "queries x 4 data sets.",
+        "level_note": "Trusted: NodeTransformer model, visitor induction, z3, own VC generator. "
+        "Method-form operator calls with keyword arguments are outside the stated domain.",
+        "technique": "contract-based deductive verification (VCs from real source + lemmas by structural induction, z3); bounded contract check as labelled stand-in",
+        "p_keys": True,
+        "explanation": "Contract-based deductive verification: transform_calls.visit_Call (nested in "
+        "change_extension_functions_to_calls) is verified against the recursive spec function "
+        "erase_method_form under the NodeTransformer library model and the visitor induction "
+        "hypothesis; `contains no remaining method-form operator call` and idempotence are lemmas "
+        "over the spec function proved by structural induction (one obligation per ast node class); "
+        "semantic equality is immediate from the definition of method form in the reference "
+        "semantics and is additionally checked bounded.",
+        "assumptions": ["method-form operator calls carry no keyword arguments (stated domain "
+                        "restriction opcall_kwfree; the code drops them)"],
+    },
 }
+
+NOT_APPLICABLE = {}
